@@ -110,12 +110,52 @@ fn run_case(c: &Case) -> CaseResult {
     Ok(st)
 }
 
+/// Dense sweep: EVERY limit in a range, against the prefix of one shared reference table (so that a limit's position relative to any
+/// internal block size - 4096, 30000, 32768, 49152, 65536, ... - is hit whatever that size is); factorize on the last 48 values.
+fn dense_case(c: &Case, lpf: &[u32]) -> CaseResult {
+    let n = c.limit as usize;
+    let s = Sieve::new(n);
+    let mut count = 0usize;
+    for k in 0..=n {
+        let isp = k >= 2 && lpf[k] == k as u32;
+        if s.is_prime(k as i32) != isp || (k >= 2 && s.min_prime(k as i32) != lpf[k] as i32) {
+            // let the full comparison word the report (and provide the replayable case)
+            return run_case(&Case { limit: c.limit, big: true });
+        }
+        count += isp as usize;
+    }
+    if s.primes().len() != count || s.primes().iter().any(|&p| lpf[p as usize] != p as u32) {
+        return run_case(&Case { limit: c.limit, big: true });
+    }
+    for k in n.saturating_sub(48).max(1)..=n {
+        let f: Vec<(i32, i32)> = s.factorize(k as i32).collect();
+        let mut r = k as u32;
+        let mut want = Vec::new();
+        while r > 1 {
+            let p = lpf[r as usize];
+            let mut e = 0;
+            while r % p == 0 {
+                r /= p;
+                e += 1;
+            }
+            want.push((p as i32, e));
+        }
+        if f != want {
+            return run_case(&Case { limit: c.limit, big: true });
+        }
+    }
+    let mut st = CaseStats::default();
+    st.size = n as u64;
+    st.nontrivial = true;
+    Ok(st)
+}
+
 fn main() {
     let mut ctx = Ctx::init("C13");
     ctx.rule(
         "A case is a limit N: Sieve::new(N) is compared element by element with trial division for every N in 0..=1500 (quick) / 0..=12000 \
-         (thorough) - min_prime(n) for 2<=n<=N, is_prime(n) for 0<=n<=N, primes() = ascending primes <= N, factorize(n) = strictly \
-         increasing primes with exact exponents for every 1<=n<=N - and with an independent odd-only Eratosthenes for N = 10^6 and 10^7 (plus 3*10^7 thorough) plus limits adjacent to them, for every multiple of 4096 up to 2^20 (1024 up to 2^21 thorough), and for generated limits in 4001..300000 biased to prime squares and powers of two +-2 (factorize on a stride sample and the last 50 values there). Non-trivial = N within \
+         (thorough), and - against one shared reference table, factorize on the last 48 values - for EVERY N up to 66000 in the release build and 33000 in the debug-assertion build (140000 / 70000 thorough), so that a limit's position relative to any internal block size is hit whatever that size is - min_prime(n) for 2<=n<=N, is_prime(n) for 0<=n<=N, primes() = ascending primes <= N, factorize(n) = strictly \
+         increasing primes with exact exponents for every 1<=n<=N - and with an independent odd-only Eratosthenes for N = 10^6 and 10^7 (plus 2^24+84 and 1.7*10^7 in the release build; 3*10^7 and 2^25+68 thorough) plus limits adjacent to them, for every multiple of 4096 up to 2^20 (1024 up to 2^21 thorough), and for generated limits in 4001..300000 biased to prime squares and powers of two +-2 (factorize on a stride sample and the last 50 values there). Non-trivial = N within \
          2 of a prime or prime square and containing a composite whose least prime squared exceeds N/2, or a large limit. Distinct = \
          distinct limits.",
     );
@@ -123,7 +163,12 @@ fn main() {
     ctx.begin();
     let top = ctx.n(1500, 12_000) as u32;
     ctx.exhaustive("every-limit", "sieve-case", &format!("every limit N in 0..={}", top), true, (0..=top).map(|limit| Case { limit, big: false }), run_case);
-    let big: Vec<u32> = if ctx.thorough() { vec![999_983, 1_000_000, 1_000_003, 2_627_641, 9_999_991, 10_000_000, 16_777_216, 30_000_000] } else { vec![999_983, 1_000_000, 1_000_003, 1_018_081, 2_627_641, 10_000_000] };
+    {
+        let dense_top = if cfg!(debug_assertions) { ctx.n(33_000, 70_000) } else { ctx.n(66_000, 140_000) } as u32;
+        let table = reference_lpf(dense_top as usize);
+        ctx.exhaustive("every-limit-dense", "sieve-case", &format!("every limit N in {}..={} against one shared reference table", top + 1, dense_top), true, (top + 1..=dense_top).map(|limit| Case { limit, big: true }), |c| dense_case(c, &table));
+    }
+    let big: Vec<u32> = if ctx.thorough() { vec![999_983, 1_000_000, 1_000_003, 2_627_641, 9_999_991, 10_000_000, 16_777_216, 16_777_300, 30_000_000, 33_554_500] } else { if cfg!(debug_assertions) { vec![999_983, 1_000_000, 1_000_003, 1_018_081, 2_627_641, 10_000_000] } else { vec![999_983, 1_000_000, 1_000_003, 1_018_081, 2_627_641, 10_000_000, 16_777_300, 17_000_000] } };
     ctx.exhaustive("large-limits", "sieve-case", "limits around 10^6 (and 10^7 in the thorough tier), element by element against an independent sieve", false, big.into_iter().map(|limit| Case { limit, big: true }), run_case);
     // limits at multiples of typical block sizes (the position of N relative to an internal block boundary):
     // every multiple of 4096 up to 2^20 (quick) / of 1024 up to 2^21 (thorough), and the neighbours of the 16 KiB ones
